@@ -71,6 +71,9 @@ def gen_plan(rng, tier, index):
         elif rng.chance(0.15):
             fops.append({'op': 'edit_resave', 't': rng.randrange(1000), 'p': rng.randrange(1000), 'seed': rng.randrange(10 ** 5),
                          'ft': rng.pick(['hdf5', 'hdf5', 'pkl'])})
+        elif rng.chance(0.25):
+            # the object read from a file is itself saved again (an analysis that loads, and stores under another name)
+            fops.append({'op': 'load_resave', 'p': rng.randrange(1000), 'ft': rng.pick(['hdf5', 'hdf5', 'pkl'])})
         else:
             fops.append({'op': 'load', 'p': rng.randrange(1000), 'via': rng.pick(['path', 'handle', 'path'])})
     plan['ops'] = fops
@@ -322,6 +325,7 @@ def _decorate(obj, plan, kind):
     if 'unicode' in dec:
         per_item['label'] = ['ü%dβ' % i for i in range(n_item)]
         o.descriptors['who'] = 'José 中'
+        o.descriptors['unit'] = 'Zoe\u0308 k\u2126 \u212b'      # a decomposed accent, OHM SIGN, ANGSTROM SIGN: text is kept code point by code point
         per_col['glyph'] = np.array(['é%d' % i for i in range(n_col)])
     if 'naninf' in dec and arr.size and arr.dtype.kind == 'f':
         flat = arr.reshape(-1)
@@ -492,6 +496,8 @@ def execute(plan, ctx):
                 _do_mutate(ctx, pool, objs, kind, {'t': o['t'], 'seed': 3 * o['seed']})
                 _do_save(ctx, pool, fs, files, objs, kind, so)
                 ctx.probe('edit_resave')
+            elif o['op'] == 'load_resave':
+                _do_load_resave(ctx, pool, fs, files, kind, o)
             elif o['op'] == 'gc':
                 import gc
                 ctx.tick('gc')
@@ -625,6 +631,36 @@ def _do_load(ctx, pool, fs, files, kind, o):
             _load_and_compare(ctx, pool, fs, e, kind, e['path'], 'path')
     if e.get('crash'):
         _load_and_compare(ctx, pool, fs, e, kind, e['crash'], 'crash-snapshot')
+
+
+def _do_load_resave(ctx, pool, fs, files, kind, o):
+    """second generation: load an acknowledged file, save the *loaded* object to a new path; that file, too, must read back
+    equal to the original"""
+    cands = [e for e in files.entries if e['twin'] is not None and e.get('path') and e.get('handle') is None]
+    if not cands:
+        return
+    e = cands[o['p'] % len(cands)]
+    load = _loader(kind)
+    fs.tick('load', target=fs.rel(e['path']), route='for-resave')
+    try:
+        loaded = load(e['path'], file_type=e['ft'])
+    except Exception:
+        return                       # (judged by the ordinary load routes)
+    if diff_rec(e['twin'], rec_any(loaded)):
+        return                       # (likewise)
+    ft = o['ft']
+    dest = fs.new_path('h5' if ft == 'hdf5' else 'pkl')
+    fs.tick('save', target=fs.rel(dest), ft=ft, overwrite=False, fault=None, obj='loaded')
+    try:
+        loaded.save(dest, file_type=ft)
+    except Exception as ex:
+        ctx.violation('fs_model.save_raises', f'save:{kind}:{ft}:loaded-object:raises:{type(ex).__name__}',
+                      f'saving an object that was read from a {e["ft"]} file raised {type(ex).__name__}: {str(ex)[:200]}')
+        return
+    files.entries.append({'path': dest, 'ft': ft, 'kind': kind, 'twin': e['twin'], 'handle': None, 'crash': None,
+                          'obj': loaded, 'via': 'second-generation:' + e['ft'], 'overwrite': False})
+    ctx.probe('second_generation_saves')
+    ctx.behaviour('save', kind, 'second-generation', e['ft'], ft)
 
 
 def _do_save(ctx, pool, fs, files, objs, kind, o):
